@@ -13,7 +13,8 @@
 //!                C07/parse-not-leftmost-shortest, C07/parse-convert, C07/parse-nodrop,
 //!                C07/parse-frame, C07/parse-order, C07/parse-field-count
 //!   parse-regex-spec  C07/parse-regex-named-groups
-//!   any panic / hang  C07/crash   (the empty separator is the known hang: one witness, last)
+//!   any panic / hang  C07/crash   (the empty separator: rejected at compile time since the repair;
+//!                     checked last on shard 0, a hang there is C07/split-empty-separator-hangs)
 use super::common::*;
 use super::kwgen::{self, Kind, Passes};
 use crate::canon::{self, J};
@@ -1013,21 +1014,38 @@ fn regex_case(ctx: &mut Ctx, ps: &mut Passes) {
 
 /* ------------------------------------------------------------------------------------------ */
 
-fn empty_separator_witness(ctx: &mut Ctx) {
-    let query = "* | split on \"\"";
-    let input = b"a b\n";
+/// The empty separator.  `split_with_delimiters(_, "")` never returns (by design the function is
+/// unchanged; the model's SPLIT answers HANG); since the repair of the finding the operator
+/// rejects `on ""` when the query is compiled.  A hang here is a regression of that repair.
+fn empty_separator_witness(ctx: &mut Ctx, ps: &mut Passes) {
+    // pure model sanity: the function-level model still predicts non-termination
     let model = ctx.drv.ask(&format!("SPLIT\t\t{}", enc::hexb(b"a b\n")));
-    let run = imp::run(query, input, "json", 3);
-    let info = json!({"class": "C07/split-empty-separator-hangs", "what": "`* | split on \"\"` never terminates on the line `a b`",
-        "query": query, "input": "a b\n", "model": model, "stdout": String::from_utf8_lossy(&run.stdout), "compiled": run.compiled, "panicked": run.panicked});
-    if run.hung {
-        ctx.case("split-empty-sep", "witness", "known", info);
-    } else if !model.starts_with("HANG") {
-        ctx.case("split-empty-sep", "witness", "pass", info);
+    if model.starts_with("HANG") {
+        ps.pass(ctx, "split-empty-sep", "model-function", || json!({"request": "SPLIT with empty separator", "model": model}));
     } else {
-        let mut i = info;
-        i["what"] = json!("the model predicts non-termination for the empty separator but the implementation returned");
-        ctx.case("split-empty-sep", "witness", "fdis", i);
+        ctx.case("split-empty-sep", "model-function", "fdis", json!({"what": "the model of split_with_delimiters no longer predicts non-termination for the empty separator", "model": model}));
+    }
+    let cases: [(&str, &[u8]); 2] = [("* | split on \"\"", b"a b\n"), ("* | json | split(f) on \"\" as g", b"{\"f\":\"x\"}\n")];
+    for (query, input) in cases {
+        // never more than 3 s on a hang, and never a second run of a query that hangs
+        let probe = imp::run(query, input, "json", 3);
+        if probe.hung {
+            ctx.case("split-empty-sep", query, "viol", json!({"class": "C07/split-empty-separator-hangs", "what": format!("`{}` never terminates (regression of a repaired finding)", query),
+                "query": query, "input": String::from_utf8_lossy(input)}));
+            continue;
+        }
+        if let Some(p) = &probe.panicked {
+            ctx.case("split-empty-sep", query, "viol", json!({"class": "C07/crash", "what": "the implementation panicked", "panic": p, "query": query, "input": String::from_utf8_lossy(input)}));
+            continue;
+        }
+        let c = run_both(ctx, query, input);
+        match compare(&c, true) {
+            F::Agree if !c.imp.compiled => ps.pass(ctx, "split-empty-sep", query, || json!({"query": query, "rejected": c.imp.compile_err, "model": c.model})),
+            F::Agree => ctx.case("split-empty-sep", query, "viol", json!({"class": "C07/split-empty-separator-accepted", "what": "the empty separator is accepted (and the model agrees)",
+                "query": query, "stdout": String::from_utf8_lossy(&c.imp.stdout), "model": c.model})),
+            F::Skip(w) => ctx.case("split-empty-sep", "", "skip", json!({"why": kwgen::skip_why(&w)})),
+            F::Disagree(d) => ctx.case("split-empty-sep", query, "fdis", json!({"what": d, "query": query, "input": String::from_utf8_lossy(input), "model": c.model})),
+        }
     }
 }
 
@@ -1051,6 +1069,6 @@ pub fn check(ctx: &mut Ctx) {
     }
     // the known hang: exactly one witness, the very last thing shard 0 does
     if ctx.shard == 0 {
-        empty_separator_witness(ctx);
+        empty_separator_witness(ctx, &mut ps);
     }
 }
